@@ -533,6 +533,136 @@ M("C11", "R-sub-locals-renamed", FOODF,
         # Create a new Food object with the subtracted nutrient quantities
         return Food(k, f, p, self.kcals_units, self.fat_units, self.protein_units)''', None)
 
+# ---------------------------------------------------------------------------- C13
+SCENF = "src/scenarios/scenarios.py"
+RUNF = "src/scenarios/run_scenario.py"
+ANIMF = "src/food_system/animal_populations.py"
+M("C13", "assert-not-set-removed", SCENF,
+  '''        self.scenario_description += "\\nno waste"
+        assert not self.WASTE_SET
+''', '''        self.scenario_description += "\\nno waste"
+''', "C13.ONCE")
+M("C13", "flag-never-set", SCENF,
+  '''            [0] * constants_for_params["NMONTHS"]
+        )
+
+        self.FISH_SET = True
+        return time_consts''', '''            [0] * constants_for_params["NMONTHS"]
+        )
+
+        return time_consts''', "C13.ONCE")
+M("C13", "write-before-assert", SCENF,
+  '''        assert not self.MEAT_STRATEGY_SET
+
+        constants_for_params["BREEDING_STRATEGY"] = "reduced"
+''', '''        constants_for_params["BREEDING_STRATEGY"] = "reduced"
+        assert not self.MEAT_STRATEGY_SET
+''', "C13.ONCE")
+M("C13", "check-all-set-forgets-flag", SCENF,
+  '''        assert self.CULLING_PARAM_SET
+        assert self.MEAT_STRATEGY_SET
+''', '''        assert self.CULLING_PARAM_SET
+''', "C13.ONCE")
+M("C13", "unknown-value-accepted", RUNF,
+  '''        else:
+            scenario_is_correct = False
+
+            assert (
+                scenario_is_correct
+            ), "You must specify 'fish' key as either zero, nuclear_winter,or baseline"
+''', '''        else:
+            time_consts_for_params = scenario_loader.set_fish_baseline(
+                constants_for_params, time_consts_for_params
+            )
+''', "C13.DISPATCH")
+M("C13", "arm-calls-wrong-family", RUNF,
+  '''        elif scenario_option_copy["nutrition"] == "catastrophe":
+            constants_for_params = scenario_loader.set_catastrophe_nutrition_profile(
+                constants_for_params
+            )''', '''        elif scenario_option_copy["nutrition"] == "catastrophe":
+            constants_for_params = scenario_loader.set_intake_constraints_to_enabled(
+                constants_for_params
+            )''', "C13.DISPATCH")
+M("C13", "presence-assert-dropped", RUNF,
+  '''        assert "cull" in scenario_option.keys(), "You must specify 'cull'"
+''', '', "C13.DISPATCH")
+M("C13", "caller-dict-mutated", RUNF,
+  '''        time_consts_for_params = {}
+
+        # SCALE''', '''        time_consts_for_params = {}
+        scenario_option["NMONTHS"] = int(scenario_option["NMONTHS"])
+
+        # SCALE''', "C13.NOMUT")
+M("C13", "shallow-copy", RUNF,
+  '''        altered_scenario_option = copy.deepcopy(scenario_option)''',
+  '''        altered_scenario_option = scenario_option''', "C13.NOMUT")
+M("C13", "revert-F8-strip", ANIMF,
+  '''key[: -len("_start")]''', '''key.strip("_start")''', "C13.OVERRIDE")
+# rstrip("_start") is correct for every *_head column (they end in 'd'): behaviour-preserving on this table
+M("C13", "R-override-rstrip", ANIMF,
+  '''key[: -len("_start")]''', '''key.rstrip("_start")''', None)
+M("C13", "multiplier-misses-a-year", RUNF,
+  '''            constants_for_params["RATIO_CROPS_YEAR6"] *= multiplier
+''', '', "C13.OVERRIDE")
+M("C13", "multiplier-also-scales-grass", RUNF,
+  '''            constants_for_params["RATIO_CROPS_YEAR10"] *= multiplier
+            try:''', '''            constants_for_params["RATIO_CROPS_YEAR10"] *= multiplier
+            constants_for_params["RATIO_GRASSES_YEAR1"] *= multiplier
+            try:''', "C13.OVERRIDE")
+M("C13", "threshold-override-no-range-check", RUNF,
+  '''            assert 0 <= constants_for_params["RATIO_STOCKS_UNTOUCHED"] <= 1
+''', '', "C13.OVERRIDE")
+M("C13", "shutoff-forgets-biofuel-key", SCENF,
+  '''        constants_for_params["DELAY"]["FEED_SHUTOFF_MONTHS"] = 2
+        constants_for_params["DELAY"]["BIOFUEL_SHUTOFF_MONTHS"] = 1
+''', '''        constants_for_params["DELAY"]["FEED_SHUTOFF_MONTHS"] = 2
+''', "C13.EFFECT")
+M("C13", "stated-number-changed", SCENF,
+  '''        constants_for_params["DELAY"]["FEED_SHUTOFF_MONTHS"] = 3
+        constants_for_params["DELAY"]["BIOFUEL_SHUTOFF_MONTHS"] = 2
+''', '''        constants_for_params["DELAY"]["FEED_SHUTOFF_MONTHS"] = 3
+        constants_for_params["DELAY"]["BIOFUEL_SHUTOFF_MONTHS"] = 3
+''', "C13.EFFECT")
+M("C13", "ten-percent-becomes-hundred", SCENF,
+  '''        constants_for_params["DELAY"]["FEED_SHUTOFF_MONTHS"] = 12
+        constants_for_params["DELAY"]["BIOFUEL_SHUTOFF_MONTHS"] = 6
+        constants_for_params[
+            "MINIMUM_PERCENT_FED_BEFORE_NONHUMAN_CONSUMPTION_ALLOWED"
+        ] = 10''', '''        constants_for_params["DELAY"]["FEED_SHUTOFF_MONTHS"] = 12
+        constants_for_params["DELAY"]["BIOFUEL_SHUTOFF_MONTHS"] = 6
+        constants_for_params[
+            "MINIMUM_PERCENT_FED_BEFORE_NONHUMAN_CONSUMPTION_ALLOWED"
+        ] = 100''', "C13.EFFECT")
+M("C13", "scenario-setter-leaves-flag-undefined", SCENF,
+  '''        constants_for_params["OG_USE_BETTER_ROTATION"] = False
+        constants_for_params["ADD_CELLULOSIC_SUGAR"] = False
+        constants_for_params["ADD_GREENHOUSES"] = False
+        constants_for_params["ADD_SEAWEED"] = False
+        constants_for_params["RATIO_INCREASED_CROP_AREA"] = 1
+
+        constants_for_params = self.methane_scp(constants_for_params)''', '''        constants_for_params["OG_USE_BETTER_ROTATION"] = False
+        constants_for_params["ADD_CELLULOSIC_SUGAR"] = False
+        constants_for_params["ADD_SEAWEED"] = False
+        constants_for_params["RATIO_INCREASED_CROP_AREA"] = 1
+
+        constants_for_params = self.methane_scp(constants_for_params)''', "C13.EFFECT")
+M("C13", "doc-value-renamed", "scenarios/README.md",
+  '''    - `dont_eat_culled` - Discards meat''', '''    - `do_not_eat_culled` - Discards meat''', "C13.DOC")
+M("C13", "preset-uses-unknown-value", "scenarios/baseline_USA.yaml",
+  '''intake_constraints: enabled''', '''intake_constraints: on''', "C13.KEYS", nth=1)
+M("C13", "R-setter-order-swapped", SCENF,
+  '''    def cull_animals(self, constants_for_params):
+        assert not self.CULLING_PARAM_SET
+        self.scenario_description += "\\nallow meat and milk consumption"
+        constants_for_params["ADD_MEAT"] = True
+        constants_for_params["ADD_MILK"] = True''', '''    def cull_animals(self, constants_for_params):
+        self.scenario_description += "\\nallow meat and milk consumption"
+        assert not self.CULLING_PARAM_SET
+        constants_for_params["ADD_MILK"] = True
+        constants_for_params["ADD_MEAT"] = True''', None)
+M("C13", "R-override-removesuffix", ANIMF,
+  '''key[: -len("_start")]''', '''key.removesuffix("_start")''', None)
+
 # ---------------------------------------------------------------------------- runner
 
 COPY = ["src", "scenarios", "scripts", "plot_manuscript_figures.py", "tests"]
